@@ -12,12 +12,15 @@ From MV Require Model.EnginesHs.   (* qualified: imports both codec models *)
 From MV Require Model.IoEnv Model.TimerRt.   (* qualified: own queue/handler names *)
 
 From MV Require Model.Inbound.   (* qualified: a scheduler model with many short names *)
+From MV Require Model.InboundBurst.
 From MV Require Model.CtlWrap.   (* qualified: own state/step names on top of Sink *)
 
 Definition run (e : N) (c : list (list N)) : list (list N) :=
   match e with
   | 33 => Inbound.run_inb3 c
   | 34 => Inbound.run_inb5 c
+  | 46 => InboundBurst.run_inb3b c
+  | 47 => InboundBurst.run_inb5b c
   | 39 => Inbound.run_cli3 c
   | 40 => Inbound.run_cli5 c
   | 1 => run_topic c
